@@ -258,6 +258,15 @@ func diff(src, dst *rib.RIB, explicitReplace map[spb.AFTType]bool, id *atomic.Ui
 
 	ops := NewReconcileOps()
 
+	// Network instances that exist only in the destination have no source entries,
+	// such that everything within them is to be removed.
+	for dstNI := range dstContents {
+		if _, ok := srcContents[dstNI]; !ok {
+			srcContents[dstNI] = &aft.RIB{}
+			srcContents[dstNI].GetOrCreateAfts()
+		}
+	}
+
 	for srcNI, srcNIEntries := range srcContents {
 		dstNIEntries, ok := dstContents[srcNI]
 		if !ok {
